@@ -228,7 +228,7 @@ def drive_arith(rec, quick):
                     continue
                 events.append({"e": "Conv", "k": k, "a": a, "b": b, "r": doubles_to_grp(R.f64), "_what": "convolution_1coeff k=%d sizes %d,%d" % (k, sa, sb)})
             # the range form and the two-coefficient form must agree with the one-coefficient form
-            for size, off in ([(sa + sb + 1, rng.randrange(0, 3))] if quick else
+            for size, off in ([(sa + sb + 1, rng.randrange(0, 3)), (1, rng.randrange(0, max(1, sa + sb))), (3, 1), (2, rng.randrange(0, 3))] if quick else
                             [(sz, of) for sz in (0, 1, sa + sb, sa + sb + 2) for of in range(0, sa + sb + 2)]):
                 R = Buf(64 * size, fill=0xEE)
                 L.fn("reim4_convolution_ref", "v puupupu")(R.addr, size, off, A.addr, sa, B.addr, sb)
